@@ -335,17 +335,19 @@ func c02CaptureMatrix(res *Result) {
 		authPolicy string
 	}
 	W := `"corp_admin"`
+	// every other name, string and variable is a DEFAULT symbol, so that the word under test is
+	// the block's only non-default symbol: read with the default table it is index 1024, dangling
 	cases := []cse{
 		{"fact-term", []string{`role(` + W + `)`}, nil, nil, nil, `allow if role(` + W + `)`},
-		{"predicate-name", []string{`corp_admin("x")`}, nil, nil, nil, `allow if corp_admin("x")`},
-		{"rule-body-constant", nil, []string{`ok("yes") <- role2(` + W + `)`}, nil, []string{`role2(` + W + `)`}, `allow if ok("yes")`},
-		{"rule-head-constant", nil, []string{`granted(` + W + `) <- role2("x")`}, nil, []string{`role2("x")`}, `allow if granted(` + W + `)`},
-		{"check-body-constant", []string{`marker(1)`}, nil, []string{`check if res(` + W + `)`}, []string{`res(` + W + `)`}, `allow if marker(1)`},
-		{"expression-constant", []string{`marker(1)`}, nil, []string{`check if res($r), $r == ` + W}, []string{`res(` + W + `)`}, `allow if marker(1)`},
-		{"expression-method-argument", []string{`marker(1)`}, nil, []string{`check if res($r), $r.starts_with(` + W + `)`}, []string{`res(` + W + `)`}, `allow if marker(1)`},
-		{"set-element-in-expression", []string{`marker(1)`}, nil, []string{`check if res($r), [` + W + `, "zz"].contains($r)`}, []string{`res(` + W + `)`}, `allow if marker(1)`},
-		{"set-element-in-fact", []string{`roles([` + W + `])`}, nil, nil, nil, `allow if roles($s), $s.contains(` + W + `)`},
-		{"rule-expression-constant", nil, []string{`ok($r) <- res($r), $r == ` + W}, nil, []string{`res(` + W + `)`}, `allow if ok(` + W + `)`},
+		{"predicate-name", []string{`corp_admin("read")`}, nil, nil, nil, `allow if corp_admin("read")`},
+		{"rule-body-constant", nil, []string{`right("read") <- role(` + W + `)`}, nil, []string{`role(` + W + `)`}, `allow if right("read")`},
+		{"rule-head-constant", nil, []string{`group(` + W + `) <- role("read")`}, nil, []string{`role("read")`}, `allow if group(` + W + `)`},
+		{"check-body-constant", []string{`user("read")`}, nil, []string{`check if resource(` + W + `)`}, []string{`resource(` + W + `)`}, `allow if user("read")`},
+		{"expression-constant", []string{`user("read")`}, nil, []string{`check if resource($user), $user == ` + W}, []string{`resource(` + W + `)`}, `allow if user("read")`},
+		{"expression-method-argument", []string{`user("read")`}, nil, []string{`check if resource($user), $user.starts_with(` + W + `)`}, []string{`resource(` + W + `)`}, `allow if user("read")`},
+		{"set-element-in-expression", []string{`user("read")`}, nil, []string{`check if resource($user), [` + W + `, "read"].contains($user)`}, []string{`resource(` + W + `)`}, `allow if user("read")`},
+		{"set-element-in-fact", []string{`member([` + W + `])`}, nil, nil, nil, `allow if member($s), $s.contains(` + W + `)`},
+		{"rule-expression-constant", nil, []string{`right($user) <- resource($user), $user == ` + W}, nil, []string{`resource(` + W + `)`}, `allow if right(` + W + `)`},
 	}
 	for _, c := range cases {
 		base := datalog.SymbolTable{"corp_admin"}
@@ -673,6 +675,23 @@ func runC12(res *Result, rng *RNG, tier string, outDir string) {
 		g := &azGen{rng: r, pg: newProgGen(r)}
 		g.pg.sigs = sigsOfScenario(sc)
 		sc.Ops = append(sc.Ops, azOp{Kind: "query", Rule: g.pg.query(false)})
+		// a third of the scenarios run just below the fact limit: a fact supplied twice is one
+		// fact, so duplicating facts must not push a run over the limit
+		if r.Chance(33) {
+			refw, _, _, capped := refClosure(append(append([]SPred{}, factsOfOps(sc.Ops)...), sc.Token[0].Facts...), rulesOfScenario(sc), 900)
+			most := len(refw.facts)
+			for _, blk := range sc.Token[1:] {
+				bw, _, _, bc := refClosure(append(append([]SPred{}, refw.facts...), blk.Facts...), blk.Rules, 900)
+				capped = capped || bc
+				if len(bw.facts) > most {
+					most = len(bw.facts)
+				}
+			}
+			if !capped {
+				sc.MaxF = most + 1 + r.Intn(2)
+				res.Dist("near-fact-limit")
+			}
+		}
 		tok, err := buildToken(sc.Token, r.Fork())
 		if err != nil {
 			continue
@@ -745,7 +764,7 @@ func runC12(res *Result, rng *RNG, tier string, outDir string) {
 				for _, op := range sc.Ops {
 					vs.Ops = append(vs.Ops, op)
 					if op.Kind == "fact" {
-						vs.Ops = append(vs.Ops, op)
+						vs.Ops = append(vs.Ops, op, op)
 					}
 				}
 				if len(sc.Token[0].Facts) > 0 { // an authority fact repeated by the authorizer
